@@ -3,6 +3,7 @@ package types
 import (
 	"fmt"
 	paramtypes "github.com/cosmos/cosmos-sdk/x/params/types"
+	"math"
 )
 
 // DefaultLiquidationBatchSize Liquidation params default values
@@ -58,6 +59,11 @@ func validateLiquidationBatchSize(i interface{}) error {
 
 	if v <= 0 {
 		return fmt.Errorf("batch size must be positive: %d", v)
+	}
+	// the sweeps convert the batch size with int(...): above MaxInt64 it would turn negative and every
+	// sweep window would be empty
+	if v > math.MaxInt64 {
+		return fmt.Errorf("batch size must not exceed %d: %d", int64(math.MaxInt64), v)
 	}
 
 	return nil
